@@ -18,22 +18,34 @@ THEOREMS = [
 ]
 HARNESS = dict(C12.HARNESS)
 STATELESS = True
-RULE = ("every savefile of C12's state space (six generated applications x states reached by random parameter "
-        "messages, biased towards enabling toggles, preset ports and their dependants) is split into messages with "
-        "the library's own scanner and loaded in every permutation of its messages (exhaustive up to 6 messages = "
-        "up to 720 loads per case, 40..200 pseudo-random permutations beyond); non-trivial = the history has at least "
-        "two messages; distinct = distinct op line")
+RULE = ("every savefile of C12's state space (eleven generated applications x states reached by parameter messages, biased "
+        "towards enabling toggles, preset ports and their dependants, walks down dependency chains that leave intermediate ports "
+        "at their defaults, enable-then-set sequences; +infinity excluded: such a file does not scan, C12-K9) is split into "
+        "messages with the library's own scanner and loaded in every permutation of its messages (exhaustive up to 6 messages = "
+        "up to 720 loads per case, 40..200 pseudo-random permutations beyond); constructs: rEnabledBy on sub-trees and on "
+        "parameters, rDefaultDepends chains up to 7 deep, rDepends on parameters and sub-trees with lists up to 16 entries, "
+        "preset-dependent array defaults, ports with the enumeration inside their name, sibling names that extend each other; "
+        "plus the dependency metadata of the compiled port tables compared with the declaration; non-trivial = the history "
+        "has at least two messages; distinct = distinct op line")
 ASSUMPTIONS = list(C12.ASSUMPTIONS) + [
-    "port names in a savefile are pairwise different (save_to_file's `written` set guarantees it)",
-    "the dependency metadata is acyclic",
+    "files the theorem quantifies over (App.FileOK): port names pairwise different (save_to_file's `written` set guarantees "
+    "it), array lines stand under array ports with at most their length elements, no parameter is addressed by two lines",
+    "the dependency metadata is acyclic and less than 64 levels deep (MetaRanked; the model's scan has that budget, the code none)",
+    "'declared dependency' is what scan_deps' own path arithmetic (levels, rel2abs, entry splitting) makes of the metadata: "
+    "MetaCovers relates the application's dependence relation to refsOf, which is built from the same functions; a defect in "
+    "them makes MetaCovers false for the application (it is evaluated per application on every run), not the theorem false",
 ]
 TRUSTED = list(C12.TRUSTED)
 LEVEL_TEXT = ("Lean theorems: Kahn's algorithm as written outputs every message once with every edge's source first "
-              "(any acyclic graph); every dependence an application declares between two present lines is a path of "
-              "edges found by scan_deps, also through absent ports; independent lines commute; hence for every "
-              "permutation of a duplicate-free file the loaded state and count are equal. The model is compared with the "
+              "(any acyclic graph); for applications satisfying App.WF (incl. anc_chain, array_ok), MetaCovers and MetaRanked: "
+              "every dependence the application declares between two present lines is a path of edges found by scan_deps, also "
+              "through absent ports; independent lines commute; hence for every permutation of a file satisfying FileOK the "
+              "loaded state and count are equal (the count clause is trivial: it is the number of lines). The hypotheses hold "
+              "for six of the eleven generated applications (evaluated on every run); all eleven are compared with the "
               "implementation on all permutations of generated savefiles")
-LEVEL_NOTE = "Ports::apropos enters as a hypothesis (MetaCovers) that is checked by correspondence; see C18"
+LEVEL_NOTE = ("the port lookup of scan_deps (Ports::apropos / port_of_path) enters as a hypothesis (MetaCovers) that is checked "
+              "per application and by correspondence; see C18. The commutation proof needs anc_chain (disjoint write sets); "
+              "without it (A6-A10: two independent ports with a common dependant) the statement is only tested")
 
 
 def generate(rng, tier, stats):
@@ -42,11 +54,15 @@ def generate(rng, tier, stats):
     stats.update({"apps": len(apps), "hist_len": {}, "wrong_type_msgs": 0, "perm_ops": 0})
     for a in apps:
         C12.prepare(a)
+    stats["theorem_hypotheses_per_app"] = C12.hypotheses_report(apps)
     # a file holding +infinity does not scan (known finding C12-K9): it has no message lines to permute
     C12.NO_POSINF = True
+    sched = C12.schedule(apps)
     try:
+        for a in apps:
+            yield "meta %d %s - - -" % (a.index, a.desc)      # the compiled dependency metadata is the declared one
         for i in range(n):
-            a = apps[i % len(apps)]
+            a = sched[i % len(sched)]
             hist = C12.gen_history(rng, a, stats, 30, lens=(2, 3, 4, 5, 6, 8, 10, 12, 16, 20))
             stats["perm_ops"] += 1
             yield "perm %d %s %s %d %d" % (a.index, a.desc, hist, rng.randint(1, 2 ** 31 - 1), 40 if tier == "quick" else 200)
@@ -62,6 +78,8 @@ def nontrivial(op):
 def oracle(op, out):
     if out.startswith("crash") or out == "bad-op":
         return "implementation: " + out
+    if op.startswith("meta "):
+        return C12.oracle(op, out)
     d = C12.parse_out(out)
     # only what the statement says: every permutation loads like the file as written (state and reported count);
     # whether that state is the saved one, and the count the number of lines, are C12's clauses
